@@ -4,6 +4,7 @@ package netpoll
 import (
 	"context"
 	"fmt"
+	"io/ioutil"
 	"net"
 	"os"
 	"path/filepath"
@@ -25,7 +26,7 @@ func init() {
 
 var vc15Kinds = []string{
 	"accept-userclose", "accept-peerclose", "accept-rst", "dial-ok", "dial-refused", "dial-timeout", "dial-unix-missing",
-	"fdconn", "detach", "listener-create-tcp", "listener-create-unix", "listener-convert-tcp", "listener-convert-unix",
+	"fdconn", "fdconn-unpollable", "accept-prepare-close", "detach", "listener-create-tcp", "listener-create-unix", "listener-convert-tcp", "listener-convert-unix",
 	"listener-twice", "server-shutdown", "server-user-close", "poller-grow-shrink",
 }
 
@@ -232,6 +233,41 @@ func vc15Act(t *vcTrial, act string, r *vfRng, tmp string, sockSeq *uint64, deta
 			}
 		}
 		srv.Stop(2 * time.Second)
+	case "accept-prepare-close":
+		// the user refuses connections inside OnPrepare (e.g. a limiter): the accepted descriptor
+		// must be closed exactly once
+		srv, err := vcStartServer(vcSrvOpts{Network: []string{"tcp", "unix"}[r.intn(2)], NCloseCb: 1,
+			OnPrepare: func(rec *vcConnRec) { rec.Conn.Close() },
+			OnRequest: func(ctx context.Context, rec *vcConnRec) error {
+				rec.Conn.Reader().Skip(rec.Conn.Reader().Len())
+				return nil
+			}})
+		if err != nil {
+			return
+		}
+		for i := 0; i < r.rng(1, 6); i++ {
+			if raw, err := vcDialRaw(srv); err == nil {
+				srv.nextAccepted(2 * time.Second)
+				raw.Close()
+			}
+		}
+		srv.Stop(2 * time.Second)
+	case "fdconn-unpollable":
+		// a descriptor that cannot be registered with epoll (a regular file): NewFDConnection fails;
+		// having adopted the descriptor it must not leave it open (and must close it only once)
+		f, err := ioutil.TempFile(tmp, "c15-file")
+		if err != nil {
+			return
+		}
+		fd, err := syscall.Dup(int(f.Fd()))
+		f.Close()
+		os.Remove(f.Name())
+		if err != nil {
+			return
+		}
+		if c, err := NewFDConnection(fd); err == nil {
+			c.Close()
+		}
 	case "dial-ok":
 		ln, err := net.Listen("tcp", "127.0.0.1:0")
 		if err != nil {
